@@ -2,7 +2,7 @@ from check import Job
 EXPLANATION = 'manifest_ttl for every expiry, wall-clock reading and sanitised window: the derived lifetime never extends beyond the manifest expiry, lies in [min, max], and only expired / too-short manifests are rejected; Node::ingest_manifest (lifted, partial Node with the real KademliaTable) changes state only on acceptance and the cached key shares then expire no later than the manifest'
 ASSUMPTIONS = ['manifest_ttl, enforce_manifest_ttl, validate_shards and Node::ingest_manifest are lifted textually from the current core/Node.cpp; protocol::decode_manifest is supplied by the harness (returns the harness-built manifest or throws; the codec is C17/C18); update_swarm_plan is a recording stub',
                'ONLY the key-share clause and the rejection clause are decided: provider contacts (handle_announce), replica copies (receive_chunk) and pending fetches (process_pending_fetches) are not encoded',
-               'the TTL window is assumed sanitised (1 <= min <= max <= 86400 s, C02); kernel job: expiry and wall clock < 2^33 s with arbitrary sub-second parts; ingest job: wall clock and expiry below 1024 s on a 1/8 s grid, window 1..255 s, 0..2 shards, symbolic threshold',
+               'the TTL window is assumed sanitised (1 <= min <= max <= 86400 s, C02); kernel job: expiry and wall clock < 2^33 s with arbitrary sub-second parts; ingest job: wall clock and expiry whole seconds below 1024 s, window 1..255 s, 0..2 shards, symbolic threshold',
                'the steady and the system clock are read at the same instant inside one call (the harness does not advance them between reads)']
 SN = {'SNIP_K_MIN_TTL': ('src/core/Node.cpp', 're:^constexpr std::chrono::seconds kMinAllowedManifestTtl'), 'SNIP_ENFORCE_TTL': ('src/core/Node.cpp', 'enforce_manifest_ttl'), 'SNIP_MANIFEST_TTL': ('src/core/Node.cpp', 'manifest_ttl'), 'SNIP_VALIDATE_SHARDS': ('src/core/Node.cpp', 'validate_shards'), 'SNIP_INGEST': ('src/core/Node.cpp', 're:^[A-Za-z_:<>, 0-9]*\\bNode::ingest_manifest\\(')}
 def jobs(tier):
